@@ -46,7 +46,7 @@ def decStack : Nat → Nat → List (Nat × Nat)
       (d / 128, d % 128) :: decStack fuel (n / 4096)
 
 def encTh (t : Th) : Nat :=
-  ((((((((((encStack t.stack * 32 + t.fn) * 128 + t.pc) * 64 + t.locs) * 4 + exCode t.exc) * 2 + t.isTask.toNat) * 2
+  ((((((((((((encStack t.stack * 32 + t.fn) * 128 + t.pc) * 4 + t.cl) * 2 + t.rcv) * 64 + t.locs) * 4 + exCode t.exc) * 2 + t.isTask.toNat) * 2
     + t.timed.toNat) * 2 + t.expired.toNat) * 2 + t.acc.toNat) * 16 + t.park.code) * 8 + t.status.code)
 
 def decTh (n : Nat) : Th :=
@@ -58,10 +58,12 @@ def decTh (n : Nat) : Th :=
   let isTask := n % 2; let n := n / 2
   let exc := n % 4; let n := n / 4
   let locs := n % 64; let n := n / 64
+  let rcv := n % 2; let n := n / 2
+  let cl := n % 4; let n := n / 4
   let pc := n % 128; let n := n / 128
   let fn := n % 32; let n := n / 32
   { fn := fn, pc := pc, stack := decStack 8 n, acc := acc == 1, locs := locs, exc := exOf exc, park := parkOf park,
-    expired := expired == 1, timed := timed == 1, isTask := isTask == 1, status := statusOf status }
+    expired := expired == 1, timed := timed == 1, isTask := isTask == 1, rcv := rcv, cl := cl, status := statusOf status }
 
 /-- width of one packed thread -/
 def thW : Nat := 2 ^ 96
@@ -87,13 +89,15 @@ def decWq : Nat → Nat → List Nat
 def wqW : Nat := 2 ^ 36
 
 def enc (s : St) : Nat :=
-  (((((((((encThs s.ths * wqW + encWq s.wq) * 8 + s.ths.length) * 8 + s.tstate) * 4 + s.fin) * 8 + ownCode s.lqc) * 8 + ownCode s.lsc) * 8
-    + ownCode s.lwcl) * 4 + s.qlen) * 2 + s.wc.toNat) * 2 + s.flag.toNat
+  (((((((((((encThs s.ths * wqW + encWq s.wq) * 8 + s.ths.length) * 8 + s.tstate) * 4 + s.fin) * 8 + ownCode s.lqc) * 8 + ownCode s.lsc) * 8
+    + ownCode s.lwcl) * 8 + ownCode s.lqc2) * 4 + s.qlen2) * 4 + s.qlen) * 4 + s.wc) * 2 + s.flag.toNat
 
 def dec (n : Nat) : St :=
   let flag := n % 2; let n := n / 2
-  let wc := n % 2; let n := n / 2
+  let wc := n % 4; let n := n / 4
   let qlen := n % 4; let n := n / 4
+  let qlen2 := n % 4; let n := n / 4
+  let lqc2 := n % 8; let n := n / 8
   let lwcl := n % 8; let n := n / 8
   let lsc := n % 8; let n := n / 8
   let lqc := n % 8; let n := n / 8
@@ -101,7 +105,8 @@ def dec (n : Nat) : St :=
   let tstate := n % 8; let n := n / 8
   let k := n % 8; let n := n / 8
   let wq := n % wqW; let n := n / wqW
-  { flag := flag == 1, wc := wc == 1, qlen := qlen, lwcl := ownOf lwcl, lsc := ownOf lsc, lqc := ownOf lqc, fin := fin,
+  { flag := flag == 1, wc := wc, qlen := qlen, qlen2 := qlen2, lwcl := ownOf lwcl, lsc := ownOf lsc, lqc := ownOf lqc,
+    lqc2 := ownOf lqc2, fin := fin,
     tstate := tstate, wq := decWq 6 wq, ths := decThs k n }
 
 /-- a certificate: groups (one per chunk theorem) of buckets of packed states; a packed state `c` lives in bucket number
